@@ -118,6 +118,32 @@ func HarnessC14Step(a []int) {
 
 func init() {
 	verifHarnesses["HarnessC14Big"] = HarnessC14Big
+	verifHarnesses["HarnessC14Group"] = HarnessC14Group
+}
+
+// HarnessC14Group: a = {n1, n2}: two group events (payload bytes symbolic) sent through a client built
+// by NewGroupRouter, then both reported lost: the two repetitions are byte for byte the two datagrams
+// sent before (the history must not alias buffers the group layer reuses).
+func HarnessC14Group(a []int) {
+	ev1, ev2 := c12Event(a[0]), c12Event(a[1])
+	gr := newGroupRouterEnv()
+	in := knxnet.VerifInbound
+	verifAssert("C14.group.sent", gr.Send(ev1) == nil)
+	verifQuiesce()
+	verifAssert("C14.group.sent", gr.Send(ev2) == nil && verifNetWrites() == 2)
+	verifQuiesce()
+	in <- &knxnet.RoutingLost{Count: 2}
+	verifSleep(int64(time.Second))
+	verifQuiesce()
+	verifAssert("C14.group.resent_count", verifNetWrites() == 4)
+	for k := 0; k < 2; k++ {
+		w, r := verifNetWrite(k), verifNetWrite(2+k)
+		verifAssert("C14.group.resent_len", len(w) == len(r))
+		for i := range w {
+			verifAssert("C14.group.resent_identical", w[i] == r[i])
+		}
+	}
+	verifCover("C14.group.end")
 }
 
 // HarnessC14Big: a = {retain count R, payload bytes n}: R+2 telegrams with n-byte payloads (each filled
